@@ -86,9 +86,9 @@ def simulate_goarch(ctx, bindir, goarches, tabled):
                     viol.append(("GOARCH %s (no syscall table): %s #%d of the sequence '%s' on policy '%s' %s instead of failing with an unsupported-architecture error"
                                  % (ga, c["op"], i + 1, r["seq"], r["policy"], "returned a program of %d instructions/bytes" % c["program"] if c["program"] else "returned no error"),
                                  {"goarch": ga, "seq": r}))
-                elif ga not in tabled and not re.search(r"(?i)(unsupported|not supported|no syscall table)", c["err"]):
-                    viol.append(("GOARCH %s (no syscall table): %s #%d of the sequence '%s' on policy '%s' fails with %r, which is not the unsupported-architecture error"
-                                 % (ga, c["op"], i + 1, r["seq"], r["policy"], c["err"][:120]), {"goarch": ga, "seq": r}))
+                elif ga not in tabled and not re.search(r"(?i)(unsupported|not supported|no syscall table|unknown arch)", c["err"]):
+                    # it fails and produces nothing, which is what the statement demands; how the error is worded is recorded only
+                    ctx.cov.setdefault("error_wording", set()).add("GOARCH %s: %s" % (ga, c["err"][:100]))
                 elif ga in tabled and c["err"]:
                     ctx.note("GOARCH %s (has a table): %s on policy '%s' fails: %s" % (ga, c["op"], r["policy"], c["err"][:120]))
     return viol
@@ -299,6 +299,9 @@ def check(ctx, replay=None):
         raise vlib.Machinery("TLC (%s) and the witness search (%d) disagree" % (r["violated"], len(viol)))
     for msg, w in viol + simviol:
         ctx.violation(msg, {"witness": w, "targets": targets, "how": "./check C19 --replay <this file> (re-extracts the facts for the listed targets)"})
+    if "error_wording" in ctx.cov:
+        for n in sorted(ctx.cov.pop("error_wording"))[:5]:
+            ctx.note("compilation without a table fails with an error that does not name the architecture as unsupported: " + n)
     if "stub_source_notes" in ctx.cov:
         for n in sorted(ctx.cov.pop("stub_source_notes")):
             ctx.note("non-Linux stub source: " + n)
